@@ -56,7 +56,13 @@ def main():
     signal.signal(signal.SIGALRM, _alarm)
     out = []
     confirmed = 0      # cases that overran the limit and three times the limit
+    short = 0          # further cases that overran the short limit
     for c in cases:
+        if short >= 20:
+            # more than twenty inputs of this run do not end: the remaining ones are not run any more (the run has failed;
+            # the first failing input is what the report replays)
+            out.append(Err("Timeout"))
+            continue
         if confirmed >= 2:
             # two cases of this run have been shown not to end: the run fails whatever the rest does, so the rest is given a
             # short limit and no second chance (otherwise every further looping case costs four times the limit)
@@ -65,6 +71,7 @@ def main():
                 r = impl(c, state) if setup else impl(c)
             except CaseTimeout:
                 r = Err("Timeout")
+                short += 1
             except RecursionError as e:
                 r = Err("RecursionError", str(e))
             except BaseException as e:  # noqa: BLE001
